@@ -321,3 +321,14 @@ _targets_before_domain = targets
 
 def targets():      # noqa: F811
     return _targets_before_domain() + [target_argument_domain()]
+
+
+
+_targets_before_dispatch_c07 = targets
+
+
+def targets():      # noqa: F811
+    # shared with C08: the work items of the multi-process branches are unpacked by position (tuple protocols), and the dispatch to
+    # the three implementations hands every value on unchanged
+    from . import forwarding, tupleproto
+    return _targets_before_dispatch_c07() + [forwarding.target_perform_tests_dispatch(), tupleproto.target_tuple_protocols()]
